@@ -127,7 +127,7 @@ struct Script {
     /// arm the fault when the database itself reports that it enters a phase: (note, phase, k) =
     /// at the k-th note of that name whose arguments match the phase (see `phase_matches`)
     arm_on_note: Option<(&'static str, u64, u64)>,
-    /// creations of write-ahead logs take 2-8 ms and every merge step 0.2 ms
+    /// creations of write-ahead logs take 12 ms and every merge step 0.15-0.3 ms
     slow_wal_creation: bool,
 }
 
@@ -390,7 +390,7 @@ fn run_script(out: &mut CaseOut, script: &Script, fault: Option<Fault>, ctx: &se
     fs.set_short_writes(script.short_writes);
     if script.slow_wal_creation {
         fs.set_delay(Some(std::sync::Arc::new(|kind, class| {
-            if kind == OpKind::CreateTrunc && class == PathClass::Wal { Some(std::time::Duration::from_millis(5)) } else { None }
+            if kind == OpKind::CreateTrunc && class == PathClass::Wal { Some(std::time::Duration::from_millis(12)) } else { None }
         })));
         d.set_delay("compact.step", crate::director::Delay { probability: 1.0, min_us: 150, max_us: 300 });
     }
